@@ -26,21 +26,15 @@ Definition ext_all_integral (t : pyv) : res pyv :=
   | _ => Raise TypeError
   end.
 
-(* np.array_equal(list(set(t)), t).
-   For a tuple of integers this holds iff iterating the set yields the entries in the given order.
-   CPython iterates a small set of small non-negative ints in increasing order as long as every entry
-   is below the table size (8 slots up to 4 entries), so on that domain the test is "strictly
-   increasing"; that is the meaning given here.  It is EXACT for repeat-free or repeated tuples
-   of ints in [0, 8) with at most 4 entries — the whole scope of the correspondence — and an
-   idealisation beyond (e.g. list(set((1, 8))) is [8, 1]: see the campaign's dedicated probe).
-   Tuples with non-integer entries: a singleton compares equal to itself; longer ones are not
-   modelled. *)
-Definition ext_set_order_equal (t : pyv) : res pyv :=
+(* np.array_equal(sorted(set(t)), t) on a tuple of integers: true iff t is strictly increasing
+   (sorted(set(t)) is the strictly increasing enumeration of t's entries).  The source checks that all
+   entries are Integral BEFORE this test, so other tuples never reach it. *)
+Definition ext_sorted_set_equal (t : pyv) : res pyv :=
   match t with
   | VTuple l =>
     match ints_of l with
     | Some zs => Ok (VBool (strictly_incr zs))
-    | None => match l with [_] => Ok (VBool true) | _ => Raise NotImplementedError end
+    | None => Raise TypeError
     end
   | _ => Raise TypeError
   end.
